@@ -1,9 +1,9 @@
 (* C13 -- axis, dimension and variable names are opaque labels.
-   Statements only; each proof is one [exact] of a lemma in Proofs/P13.v.
+   Statements only; each proof is one [exact] of a lemma in Proofs/P13.v or Proofs/P13_ufunc.v.
    [injective r]: r maps different names to different names. *)
 From Coq Require Import List Bool ZArith String.
 From XV Require Import Base.Res Base.Assoc Base.Ops Base.Seq1D Base.Tensor Model.Axis Model.GridCtor Model.Pad Model.GridOps Model.Dispatch Model.Cumsum
-     Model.Signature Model.UFunc Proofs.TensorLemmas Proofs.P13 Proofs.Tie_names Generated.G13.
+     Model.Signature Model.UFunc Proofs.TensorLemmas Proofs.P13 Proofs.P13_ufunc Proofs.Tie_names Generated.G13.
 Import ListNotations.
 Open Scope string_scope.
 Open Scope list_scope.
@@ -134,7 +134,44 @@ Theorem C13_cumsum : forall (r ra : string -> string), injective r -> injective 
   end.
 Proof. intros r ra Hr Hra A o. exact (grid_cumsum_rename r ra Hr Hra o). Qed.
 
+(* A fourth whole entry point: apply_as_grid_ufunc / a decorated grid ufunc, up to the call
+   of the user's function.  Three INDEPENDENT injective renamings -- of the dimensions (r),
+   of the grid's axes (ra) and of the dummy names of the signature (rd): dummy names are bound
+   variables of their own namespace, so one that is spelled like a real axis plays no
+   special role.  The renamed call (axes in `axis`, signature, boundary_width keyed by the
+   renamed dummies, boundary / fill_value keyed by the renamed axes) raises the same
+   exception, or hands the function the same arrays up to renaming the dimensions (same
+   number at every point), with the renamed core dimensions and the renamed width table. *)
+Theorem C13_ufunc_received : forall (r ra rd : string -> string), injective r -> injective ra -> injective rd ->
+  forall {A} (dflt : A) (g : grid A) (c : ucall (A:=A)) (args : list (tensor A)),
+  Forall respects args ->
+  match ufunc_received dflt (rename_grid r ra g) (rename_ucall ra rd c) (map (rename_tensor r) args),
+        ufunc_received dflt g c args with
+  | Ok (recv1, ic1, oc1, bw1), Ok (recv2, ic2, oc2, bw2) =>
+    Forall2 (R r) recv1 recv2 /\ ic1 = map (map r) ic2 /\ oc1 = map (map r) oc2 /\ bw1 = rename_widths ra bw2 /\
+    Forall respects recv2
+  | Err e1, Err e2 => e1 = e2
+  | _, _ => False
+  end.
+Proof. intros r ra rd Hr Hra Hrd A dflt. exact (ufunc_received_rename r ra rd Hr Hra Hrd dflt). Qed.
+
+(* ... and the whole call, for every user function that is itself indifferent to names
+   (related inputs give related outputs): padding of the outputs when pad_before_func is
+   off, the check of the output sizes against the dataset, the results. *)
+Theorem C13_ufunc_apply : forall (r ra rd : string -> string), injective r -> injective ra -> injective rd ->
+  forall {A} (dflt : A) (g : grid A) dssizes (c : ucall (A:=A)) f f' (args : list (tensor A)),
+  Forall respects args -> indifferent r f f' ->
+  match ufunc_apply dflt (rename_grid r ra g) (rename_dims r dssizes) (rename_ucall ra rd c) f' (map (rename_tensor r) args),
+        ufunc_apply dflt g dssizes c f args with
+  | Ok (recv1, outs1), Ok (recv2, outs2) => Forall2 (R r) recv1 recv2 /\ Forall2 (R r) outs1 outs2
+  | Err e1, Err e2 => e1 = e2
+  | _, _ => False
+  end.
+Proof. intros r ra rd Hr Hra Hrd A dflt. exact (ufunc_apply_rename r ra rd Hr Hra Hrd dflt). Qed.
+
 Print Assumptions C13_no_name_inspection.
+Print Assumptions C13_ufunc_received.
+Print Assumptions C13_ufunc_apply.
 Print Assumptions C13_cumsum.
 Print Assumptions C13_grid_op.
 Print Assumptions C13_pad.
@@ -161,3 +198,7 @@ Example C13_nonvacuous :
   tabulate (pad_dim 0%Z p' (rename_tensor ex_r t)) = tabulate (rename_tensor ex_r (pad_dim 0%Z p t)) /\
   tabulate (pad_dim 0%Z p t) = [1; 2; 1; 2; 3; 4; 5; 6; 5; 6]%Z.
 Proof. vm_compute. split; reflexivity. Qed.
+(* the hypothesis of C13_ufunc_apply is satisfiable: handing back what was received *)
+Example C13_indifferent_nonvacuous : forall {A} r,
+  indifferent (A:=A) r (fun recv _ _ => recv) (fun recv _ _ => recv).
+Proof. intros A r. exact (identity_indifferent r). Qed.
